@@ -1020,6 +1020,10 @@ def gen_plan(seed: int, cfg: dict) -> dict:
         pid = new_pid("T" if target else "N")
         if want_router:
             spec = g.gen_router_program(pid, target, fault_sub=fault_sub)
+            if prog_fault == ["dup_method"]:
+                # registering the same method twice: rejected at registration, last step of the build
+                last = [st for st in spec["steps"] if st[0] == "add_method"][-1]
+                spec["steps"].append(["add_method", last[1], last[2]])
         else:
             spec = g.gen_expr_program(pid, target, fault_sub=fault_sub, prog_fault=prog_fault)
         programs[pid] = spec
@@ -1049,7 +1053,9 @@ def gen_plan(seed: int, cfg: dict) -> dict:
                 elif y < 0.75:
                     fault_sub = {"kind": "needv", "v": r.choice([7, 8, 10])}
                 elif not want_router:
-                    prog_fault = r.choice([["slotdup", r.choice([5, 77])], ["rbw"], ["manyabi", r.choice([130, 260])]])
+                    prog_fault = r.choice([["slotdup", r.choice([5, 77])], ["rbw"], ["manyabi", r.choice([130, 260])], ["pop", ["badtype"]]])
+                else:
+                    prog_fault = ["dup_method"]
             spec = make_program(not is_noise, want_router, fault_sub, prog_fault)
             pid = spec["id"]
             nsteps = len(spec["steps"])
